@@ -829,7 +829,9 @@ func inStopWait(g gdump.G) bool { return libParked(g) && inCall(g, "StopBatchWri
 // "no writer in the snapshot" could otherwise mean "not created yet" during a cold start.
 func (s *scen) applyNoWriterRules(gs []gdump.G, stopHung *bool) {
 	for _, a := range s.actors {
-		if a.role == "main" || a.hung != "" || closed(a.done) {
+		// (no look at a.done here: it may have been closed AFTER the snapshot was taken; an actor
+		// that has exited is simply not in the snapshot)
+		if a.role == "main" || a.hung != "" {
 			continue
 		}
 		if g, found := gdump.Find(gs, a.gid.Load()); found && !parked(g) &&
@@ -838,18 +840,26 @@ func (s *scen) applyNoWriterRules(gs []gdump.G, stopHung *bool) {
 		}
 	}
 	for _, a := range s.actors {
-		if a.role == "main" || a.hung != "" || closed(a.done) {
+		// (no look at a.done here: it may have been closed AFTER the snapshot was taken; an actor
+		// that has exited is simply not in the snapshot)
+		if a.role == "main" || a.hung != "" {
 			continue
 		}
 		g, found := gdump.Find(gs, a.gid.Load())
 		if !found {
 			continue
 		}
+		var all strings.Builder
+		for _, x := range gs {
+			if strings.Contains(x.Raw, "main.(") || strings.Contains(x.Raw, kvPkg) {
+				all.WriteString("\n\n" + x.Raw)
+			}
+		}
 		switch {
 		case inEnqueueSend(g):
-			a.hung, a.dump = fpEnqBlocked, g.Raw
+			a.hung, a.dump = fpEnqBlocked, g.Raw+"\n\n--- all harness/kvstore goroutines of the deciding snapshot:"+all.String()
 		case inStopWait(g):
-			a.hung, a.dump = fpStopBlocked, g.Raw
+			a.hung, a.dump = fpStopBlocked, g.Raw+"\n\n--- all harness/kvstore goroutines of the deciding snapshot:"+all.String()
 			*stopHung = true
 		}
 	}
@@ -899,11 +909,13 @@ func (s *scen) finishWait() (ok bool) {
 			onlyStops := true
 			var waiting []*actor
 			for _, a := range s.actors {
-				if a.role == "main" || a.hung != "" || closed(a.done) {
+				if a.role == "main" || a.hung != "" {
 					continue
 				}
+				// the snapshot decides who is still there (a.done may be closed after it was taken)
 				g, found := gdump.Find(gs, a.gid.Load())
 				switch {
+				case !found:
 				case found && inStopWait(g):
 					waiting = append(waiting, a)
 					a.dump = g.Raw
